@@ -183,8 +183,17 @@ void pbt_run(const Case& cs, Ctx& ctx) {
     if (nm == "append") {
 #if KIND == 2
       int id = pinSeq++; Pinned* r; int b = 0, cc = 0; bool reuse = removesTotal > 0;
-      switch (aux % 4) { case 0: r = &K.append(); id = 0; break; case 1: r = &K.append(id); break; case 2: b = (int)aux; r = &K.append(id, b); break; default: b = (int)aux; cc = v; r = &K.append(id, b, cc); }
+      long wantExtra = 0; int x4 = (int)aux + 11, x5 = v + 12, x6 = (int)aux * 3 + 13, x7 = v * 5 + 14;
+      switch (aux % 8) {
+        case 0: r = &K.append(); id = 0; break; case 1: r = &K.append(id); break; case 2: b = (int)aux; r = &K.append(id, b); break;
+        case 3: b = (int)aux; cc = v; r = &K.append(id, b, cc); break;
+        case 4: b = (int)aux; cc = v; r = &K.append(id, b, cc, x4); wantExtra = x4; break;
+        case 5: b = (int)aux; cc = v; r = &K.append(id, b, cc, x4, x5); wantExtra = x4 + 3L * x5; break;
+        case 6: b = (int)aux; cc = v; r = &K.append(id, b, cc, x4, x5, x6); wantExtra = x4 + 3L * x5 + 5L * x6; break;
+        default: b = (int)aux; cc = v; r = &K.append(id, b, cc, x4, x5, x6, x7); wantExtra = x4 + 3L * x5 + 5L * x6 + 7L * x7; break;
+      }
       if (r->id != id) ctx.fail("mismatch:append-result", "append() did not return the constructed element");
+      if (r->b != b || r->c != cc || r->extra != wantExtra) ctx.fail("mismatch:append-arguments", "the element constructed by append(...) did not receive the arguments it was given");
       if (reuse) { for (auto& e : M[0]) (void)e; ctx.label("slot_reuse"); }
       It last = K.end(); --last;
       if (&*last != r) ctx.fail("mismatch:append-result", "append() result is not the last element");
